@@ -264,11 +264,10 @@ func (c *DefaultCompactionCoordinator) runCompactionCycle() error {
 		return fmt.Errorf("compaction failed: %w", err)
 	}
 
-	// Mark input files as obsolete
-	for _, files := range task.InputFiles {
-		for _, file := range files {
-			c.fileTracker.MarkFileObsolete(file.Path)
-		}
+	// Mark input files as obsolete, oldest data first: that is the order in
+	// which they are deleted
+	for _, file := range task.InputFilesOldestFirst() {
+		c.fileTracker.MarkFileObsolete(file.Path)
 	}
 
 	// Try to clean up the files immediately
